@@ -842,9 +842,10 @@ impl Values<bool> for Intervals<bool> {
 
 impl Values<i64> for Intervals<i64> {
     fn values_len(&self) -> Option<usize> {
-        let min = (*self.min()?).clamp(-(self.capacity as i64), self.capacity as i64);
-        let max = (*self.max()?).clamp(-(self.capacity as i64), self.capacity as i64);
-        Some((max - min) as usize)
+        // The width of the range, capped at the capacity (the difference is saturated, not the bounds: a
+        // range lying beyond the capacity, such as [1000, 3000000000], is not a short one)
+        let width = (*self.max()?).saturating_sub(*self.min()?);
+        Some(width.clamp(0, self.capacity as i64) as usize)
     }
     fn max_value_len(&self) -> usize {
         self.capacity
